@@ -265,8 +265,12 @@ def install_crc_tracking(ip, an):
         except Unsupported:
             return
         if a.root == root and a.steps == (("f", an.i_crc),):
+            from ..vra.stdsum import crc_log_of
+            lg = crc_log_of(ip_, val) if isinstance(val, VOpq) else None
             if isinstance(val, VOpq) and val.tag == "crc-digest-fresh":
                 st.ghost["crc-feed"] = ()
+            elif lg is not None:
+                st.ghost["crc-feed"] = lg       # a digest created and fed elsewhere (a helper) before it is stored in the field
             else:
                 st.ghost["crc-feed"] = None
 
@@ -356,6 +360,20 @@ def frame_analysis(A, an):
             pass
         # result of from_le_bytes lands in a local via the call terminator, not an assign; the read value is
         # recovered at the gate from the recorded argument bytes (little endian)
+        if isinstance(val, VOpq) and val.tag == "crc-digest-fed":
+            # a digest that was created and fed before being stored into the decoder's CRC field counts as fed to it
+            from ..vra.stdsum import crc_log_of
+            lg = crc_log_of(ip_, val)
+            p_ = stmt["place"]
+            if lg and p_["proj"] and p_["proj"][-1].get("k") == "field":
+                try:
+                    a_ = ip_.resolve(frame, p_, st)
+                except Unsupported:
+                    a_ = None
+                if a_ is not None and a_.root == root and a_.steps == (("f", an.i_crc),):
+                    st.ghost["fa-feeds"] = st.ghost.get("fa-feeds", ()) + tuple(lg)
+                    st.ghost["fa-dfed"] = st.ghost.get("fa-dfed", Lin.const(0)) + sum(len(u) for u in lg)
+            return
         if not (isinstance(val, VEnum) and val.defn == STATE):
             return
         if st.const_of(val.disc) != an.v_done:
